@@ -25,6 +25,7 @@ use crate::codec::SketchSlice;
 use crate::codec::family::Family;
 use crate::error::Error;
 use crate::hll::HllType;
+use crate::hll::KEY_BITS_26;
 use crate::hll::container::COUPON_EMPTY;
 use crate::hll::container::Container;
 use crate::hll::serialization::COMPACT_FLAG_MASK;
@@ -82,13 +83,20 @@ impl List {
         empty: bool,
         compact: bool,
     ) -> Result<Self, Error> {
-        // Compute array size
-        let array_size = if compact { coupon_count } else { 1 << lg_arr };
+        // The in-memory list always has its full 2^lg_arr slots; a compact image stores only
+        // the first coupon_count of them.
+        if lg_arr > KEY_BITS_26 as usize || coupon_count > (1 << lg_arr) {
+            return Err(Error::deserial(format!(
+                "invalid list: lg_arr {lg_arr}, coupon count {coupon_count}"
+            )));
+        }
+        let array_size = 1 << lg_arr;
+        let num_stored = if compact { coupon_count } else { array_size };
 
         // Read coupons
         let mut coupons = vec![0u32; array_size];
         if !empty && coupon_count > 0 {
-            for (i, coupon) in coupons.iter_mut().enumerate() {
+            for (i, coupon) in coupons.iter_mut().take(num_stored).enumerate() {
                 *coupon = cursor.read_u32_le().map_err(|_| {
                     Error::insufficient_data(format!(
                         "expect {coupon_count} coupons, failed at index {i}"
